@@ -122,6 +122,9 @@ pub struct Ingester {
     last_wal_seq: AtomicU64,
     /// Last WAL sequence number that was successfully flushed to S3
     last_flushed_seq: AtomicU64,
+    /// WAL sequence numbers appended but not yet part of a registered chunk
+    /// (buffered, being flushed, or taken by a flush that failed)
+    unflushed_seqs: std::sync::Mutex<std::collections::BTreeSet<u64>>,
     /// Cancellation token for graceful shutdown
     shutdown: CancellationToken,
     /// Bounded clock for skew-safe timestamp operations
@@ -161,6 +164,7 @@ impl Ingester {
             wal_warned: AtomicBool::new(false),
             last_wal_seq: AtomicU64::new(0),
             last_flushed_seq: AtomicU64::new(0),
+            unflushed_seqs: std::sync::Mutex::new(std::collections::BTreeSet::new()),
             shutdown: CancellationToken::new(),
             clock: Arc::new(BoundedClock::default()),
         }
@@ -198,6 +202,7 @@ impl Ingester {
             wal_warned: AtomicBool::new(false),
             last_wal_seq: AtomicU64::new(0),
             last_flushed_seq: AtomicU64::new(0),
+            unflushed_seqs: std::sync::Mutex::new(std::collections::BTreeSet::new()),
             shutdown: CancellationToken::new(),
             clock: Arc::new(BoundedClock::default()),
         }
@@ -240,21 +245,22 @@ impl Ingester {
 
                                     // Keep recovery buffer schema-homogeneous so future flushes do not fail.
                                     if !buffer.schema_compatible(incoming) {
-                                        let existing = buffer.take();
+                                        let (existing, existing_seqs) = buffer.take_with_seqs();
                                         drop(buffer);
                                         // Advance WAL seq before flush so flush_batches persists
                                         // the correct sequence. Without this, a crash after the
                                         // flush but before line `self.last_wal_seq.store(max_seq)`
                                         // would replay already-flushed entries on next recovery.
                                         self.last_wal_seq.store(max_seq, Ordering::Release);
-                                        self.flush_batches(existing).await?;
+                                        self.flush_batches(existing, existing_seqs).await?;
                                         continue;
                                     }
 
                                     let incoming = pending_batch.take().ok_or_else(|| {
                                         Error::Internal("Missing pending batch".to_string())
                                     })?;
-                                    buffer.append(incoming)?;
+                                    self.unflushed_seqs.lock().unwrap().insert(entry.seq);
+                                    buffer.append_with_seq(incoming, entry.seq)?;
                                     break;
                                 }
                                 replayed += 1;
@@ -317,17 +323,10 @@ impl Ingester {
             }
 
             // Normal single-write path
+            let mut wal_seq = 0;
             if let Some(wal) = self.wal.as_ref() {
-                let seq = match wal.lock().await.append(&batch).await {
-                    Ok(seq) => {
-                        telemetry::record_wal_operation("append", "ok");
-                        seq
-                    }
-                    Err(e) => {
-                        telemetry::record_wal_operation("append", "error");
-                        return Err(e);
-                    }
-                };
+                let seq = self.append_to_wal(wal, &batch).await?;
+                wal_seq = seq;
                 self.last_wal_seq.store(seq, Ordering::Release);
                 #[cfg(feature = "verif-hooks")]
                 crate::verif_hooks::pause("ingest.after_wal_append").await;
@@ -340,7 +339,8 @@ impl Ingester {
                 }
             }
 
-            self.append_to_buffer_and_maybe_flush(batch, batch_size).await?;
+            self.append_to_buffer_and_maybe_flush(batch, batch_size, wal_seq)
+                .await?;
 
             // Record write metrics for hot shard detection
             let write_latency = start_time.elapsed();
@@ -364,17 +364,10 @@ impl Ingester {
             .await?
             .ok_or_else(|| Error::Internal("Split state disappeared".to_string()))?;
 
+        let mut wal_seq = 0;
         if let Some(wal) = self.wal.as_ref() {
-            let seq = match wal.lock().await.append(&batch).await {
-                Ok(seq) => {
-                    telemetry::record_wal_operation("append", "ok");
-                    seq
-                }
-                Err(e) => {
-                    telemetry::record_wal_operation("append", "error");
-                    return Err(e);
-                }
-            };
+            let seq = self.append_to_wal(wal, &batch).await?;
+            wal_seq = seq;
             self.last_wal_seq.store(seq, Ordering::Release);
             #[cfg(feature = "verif-hooks")]
             crate::verif_hooks::pause("ingest.after_wal_append").await;
@@ -388,8 +381,12 @@ impl Ingester {
         }
 
         // Write to old shard first (for consistency during transition)
-        self.append_to_buffer_and_maybe_flush(batch.clone(), batch.get_array_memory_size())
-            .await?;
+        self.append_to_buffer_and_maybe_flush(
+            batch.clone(),
+            batch.get_array_memory_size(),
+            wal_seq,
+        )
+        .await?;
 
         // Split batch by key range and write to new shards
         let (batch_a, batch_b) = self.split_batch_by_key(&batch, &split_state.split_point)?;
@@ -415,6 +412,25 @@ impl Ingester {
         }
 
         Ok(())
+    }
+
+    /// Append a batch to the WAL and record its sequence number as not yet flushed.
+    ///
+    /// The sequence number is recorded while the WAL lock is still held, so the set of
+    /// unflushed numbers never misses an entry that is older than one it contains.
+    async fn append_to_wal(&self, wal: &Mutex<WriteAheadLog>, batch: &RecordBatch) -> Result<u64> {
+        let mut wal = wal.lock().await;
+        match wal.append(batch).await {
+            Ok(seq) => {
+                telemetry::record_wal_operation("append", "ok");
+                self.unflushed_seqs.lock().unwrap().insert(seq);
+                Ok(seq)
+            }
+            Err(e) => {
+                telemetry::record_wal_operation("append", "error");
+                Err(e)
+            }
+        }
     }
 
     /// Write a batch directly to a specific shard (bypass buffer)
@@ -593,6 +609,7 @@ impl Ingester {
         &self,
         batch: RecordBatch,
         batch_size: usize,
+        wal_seq: u64,
     ) -> Result<()> {
         let mut pending_batch = Some(batch);
 
@@ -605,9 +622,9 @@ impl Ingester {
 
             // If schemas differ, flush current buffer before appending.
             if !buffer.schema_compatible(incoming) {
-                let existing = buffer.take();
+                let (existing, existing_seqs) = buffer.take_with_seqs();
                 drop(buffer);
-                self.flush_batches(existing).await?;
+                self.flush_batches(existing, existing_seqs).await?;
                 continue;
             }
 
@@ -619,22 +636,50 @@ impl Ingester {
             let incoming = pending_batch
                 .take()
                 .ok_or_else(|| Error::Internal("Missing pending batch".to_string()))?;
-            buffer.append(incoming)?;
+            buffer.append_with_seq(incoming, wal_seq)?;
             let max_buffer_size = self.config.max_buffer_size_bytes.max(1) as f64;
             telemetry::record_buffer_fullness_ratio(buffer.size_bytes() as f64 / max_buffer_size);
 
             if self.should_flush(&buffer) {
-                let batches = buffer.take();
+                let (batches, seqs) = buffer.take_with_seqs();
                 drop(buffer);
-                self.flush_batches(batches).await?;
+                self.flush_batches(batches, seqs).await?;
             }
 
             return Ok(());
         }
     }
 
-    /// Flush batches to object storage
-    async fn flush_batches(&self, batches: Vec<RecordBatch>) -> Result<()> {
+    /// Flush batches to object storage.
+    ///
+    /// `seqs` are the WAL sequence numbers of `batches`. If the data could not be uploaded and
+    /// registered, the batches go back to the front of the buffer so that the next flush retries
+    /// them (when the buffer has meanwhile switched schema they stay in the WAL, which is not
+    /// truncated past them, and are recovered at the next start).
+    async fn flush_batches(&self, batches: Vec<RecordBatch>, seqs: Vec<u64>) -> Result<()> {
+        let mut registered = false;
+        let result = self
+            .flush_batches_inner(&batches, &seqs, &mut registered)
+            .await;
+        if result.is_err() && !registered {
+            let mut buffer = self.buffer.write().await;
+            if batches
+                .first()
+                .map(|b| buffer.schema_compatible(b))
+                .unwrap_or(false)
+            {
+                buffer.prepend(batches, seqs);
+            }
+        }
+        result
+    }
+
+    async fn flush_batches_inner(
+        &self,
+        batches: &[RecordBatch],
+        seqs: &[u64],
+        registered: &mut bool,
+    ) -> Result<()> {
         if batches.is_empty() {
             return Ok(());
         }
@@ -670,6 +715,7 @@ impl Ingester {
             size_bytes: parquet_size,
         };
         self.metadata.register_chunk(&path, &chunk_metadata).await?;
+        *registered = true;
         #[cfg(feature = "verif-hooks")]
         crate::verif_hooks::pause("flush.after_register").await;
 
@@ -693,9 +739,21 @@ impl Ingester {
             debug!("No topic broadcast subscribers: {}", e);
         }
 
-        // Truncate WAL after successful flush
-        let flushed_up_to = self.last_wal_seq.load(Ordering::Acquire);
-        if flushed_up_to > 0 {
+        // Truncate WAL after successful flush. The flushed mark may only cover entries that are
+        // in a registered chunk: everything below the oldest entry that is still buffered, being
+        // flushed by someone else, or was taken by a flush that failed.
+        let last_appended = self.last_wal_seq.load(Ordering::Acquire);
+        let flushed_up_to = {
+            let mut unflushed = self.unflushed_seqs.lock().unwrap();
+            for seq in seqs {
+                unflushed.remove(seq);
+            }
+            match unflushed.iter().next() {
+                Some(oldest) => oldest - 1,
+                None => last_appended,
+            }
+        };
+        if flushed_up_to > self.last_flushed_seq.load(Ordering::Acquire) {
             if let Some(wal) = self.wal.as_ref() {
                 if let Err(e) = wal.lock().await.truncate_before(flushed_up_to).await {
                     telemetry::record_wal_operation("truncate", "error");
@@ -738,24 +796,24 @@ impl Ingester {
                     };
 
                     if should_flush {
-                        let batches = {
+                        let (batches, seqs) = {
                             let mut buffer = self.buffer.write().await;
-                            buffer.take()
+                            buffer.take_with_seqs()
                         };
 
-                        if let Err(e) = self.flush_batches(batches).await {
+                        if let Err(e) = self.flush_batches(batches, seqs).await {
                             error!("Flush timer failed: {}", e);
                         }
                     }
                 }
                 _ = self.shutdown.cancelled() => {
                     info!("Flush timer shutting down, flushing remaining data");
-                    let batches = {
+                    let (batches, seqs) = {
                         let mut buffer = self.buffer.write().await;
-                        buffer.take()
+                        buffer.take_with_seqs()
                     };
                     if !batches.is_empty() {
-                        if let Err(e) = self.flush_batches(batches).await {
+                        if let Err(e) = self.flush_batches(batches, seqs).await {
                             error!("Final flush failed during shutdown: {}", e);
                         }
                     }
